@@ -1,6 +1,6 @@
 """C18 – saving and restoring the queue preserves every job."""
 from mc.props import qs_explore as X
-from mc.props.c16 import RULE, ASSUME, EXT_OPS, make_cfg
+from mc.props.c16 import RULE, ASSUME, EXT_OPS, make_cfg, narrow_cfg
 
 
 class C18:
@@ -9,10 +9,14 @@ class C18:
 
     def main(self, tier, seed, gate=True):
         cfg, cap = make_cfg(tier, EXT_OPS, maxrestarts=2)
-        return X.search(self.id, cfg, tier, seed, self.families, post_restart_only=True, time_cap=cap,
-                        rule=RULE + "; the save/restore step (Main.savedb -> pickle file -> Main.loaddb in a fresh Main, all connections gone) is enabled in every quiescent state and exploration continues after it with the C16/C17 oracles armed; only violations that arise after a restart are reported here",
-                        assumptions=ASSUME + ("the server is stopped between event-loop iterations (quiescent), as KeyboardInterrupt in serve_forever does",),
-                        gate=gate)
+        # ids: anonymous adds (server-assigned ids), error finishes (10 s ttl), the watchdog that forgets expired jobs, restarts
+        ids = narrow_cfg(tier, {"addanon", "pull", "finish", "wd"}, workers=("w1",), finish_kinds=("err",), maxjobs=3, maxpoll=1,
+                         bound=16 if tier == "quick" else 20, maxrestarts=2, probe=False)
+        return X.search_phases(self.id, [("wide", cfg, cap), ("ids-deep", ids, 60 if tier == "quick" else 1500)], tier, seed, self.families,
+                               post_restart_only=True,
+                               rule=RULE + "; the save/restore step (Main.savedb -> pickle file -> Main.loaddb in a fresh Main, all connections gone) is enabled in every quiescent state and exploration continues after it with the C16/C17 oracles armed; only violations that arise after a restart are reported here",
+                               assumptions=ASSUME + ("the server is stopped between event-loop iterations (quiescent), as KeyboardInterrupt in serve_forever does",),
+                               gate=gate)
 
     def replay(self, record):
         return X.replay_history(record, self.families, make_cfg("quick", EXT_OPS, 2)[0], post_restart_only=True)
